@@ -29,7 +29,7 @@ import runner
 import tlc
 
 WORK = os.path.join(common.VERIF, "work")
-VCHILD = os.path.join(common.VERIF, "harness", "target", "debug", "vchild")
+VCHILD = os.path.join(getattr(common, "HARNESS", os.path.join(common.VERIF, "harness")), "target", "debug", "vchild")
 UNIT_MS = 60000      # one model time unit; the child exits at once, no timeout can fire
 
 TIGHT = dict(MAXPROGRAM=2, MAXCWD=2, MAXARGS=2, MAXARGBYTES=2, MAXTOTALARG=3, MAXENVPAIRS=1, MAXKEY=2, MAXVAL=2,
@@ -42,12 +42,16 @@ DEFAULTS = dict(MAXPROGRAM=4096, MAXCWD=4096, MAXARGS=256, MAXARGBYTES=65536, MA
                 MAXVAL=16384, MAXTOTALENV=131072, MAXSTDIN=1048576, MAXTIMEOUT=60, DEFTIMEOUT=15)
 
 FRAGS = [" ", '"', "'", "$HOME", "$", "*", ";", "\n", "é", "日本", "\\", "`id`", "$(id)", "|", "&", ">", "<", "~", "?", "[a]", "%s",
-         "-rf", "\t", "a b", "--", "#", "!", "(", ")", "x", "Z", "0", "€", "\u00a0", "\\n", "*.*", "${IFS}", "&&", "||", "\x7f", "\x01"]
+         "-rf", "\t", "a b", "--", "#", "!", "(", ")", "x", "Z", "0", "€", "\u00a0", "\\n", "*.*", "$IFS", "&&", "||", "\x7f", "\x01"]
 SINGLES = " \"'$*;\n\\|&><~?#!()xZ0-%`\t"
 
 
 def fill(n, rng, filename=False):
     """n bytes of hostile text (never NUL, `=`, `{`, `}` or CR; file names also avoid `/`)."""
+    if n > 4096:
+        block = fill(4096, rng, filename)         # large strings: a hostile block, tiled, with a hostile tail
+        reps, tail = divmod(n, 4096)
+        return block * reps + fill(tail, rng, filename)
     out = b""
     guard = 0
     while len(out) < n:
@@ -296,7 +300,7 @@ def run(tier):
              ("loose-argenv", LOOSE, "argenv", 3, 1, 0.5 if quick else 1.0), ("zero-full", ZERO, "full", 2, 1, 1.0),
              ("loose-full", LOOSE, "full", 2, 1, 0.5 if quick else 1.0), ("denied", TIGHT, "full", 2 if not quick else 1, 0, 1.0)]
     if not quick:
-        plans.append(("tight-full-3", TIGHT, "full", 3, 1, 0.6))
+        plans.append(("tight-full-3", TIGHT, "full", 3, 1, 1.0))
     states = transitions = 0
     models = {}
     reqs, insts = [], {}
